@@ -309,6 +309,7 @@ package cli
 
 // --- Cmd.parse (C04, C05, C07, C14): one level; the recursive call is covered by this same contract -----------------------
 //@ func (*Cmd).parse
+//@   logged
 //@   requires recv: c != nil && c.fsm != nil && entry != nil
 //@   requires wf: allCmdWF(fieldHeap(c.options), fieldHeap(c.args), fieldHeap(c.commands), fieldHeap(c.optionsIdx), fieldHeap(c.argsIdx))
 //@   requires names: noHelpNames(fieldHeap(c.aliases))
@@ -326,7 +327,7 @@ package cli
 //@   let p0 = len(trace)
 //@   ensures help-runs-nothing: h >= 0 ==> result == nil && noFlow(old(trace), trace)
 //@   ensures help-here-first: h >= 0 && h < k ==> trace[p0] == evMark("printHelp", c, true)
-//@   ensures validated-first: h < 0 ==> len(trace) > p0 && trace[p0] == evMark("Parse", fsm0)
+//@   ensures validated-first: h < 0 ==> len(trace) > p0 && trace[p0] == evMark("Parse", fsm0, argsId(args[:k]))
 //@   ensures rejected-runs-nothing: h < 0 && !callOK("Parse", p0) ==> result != nil && noRun(old(trace), trace) && isMark(trace[len(trace)-1], "onError")
 //@   ensures rejected-reports: h < 0 && !callOK("Parse", p0) ==> callEnd("Parse", p0) + 1 < len(trace) &&
 //@       trace[callEnd("Parse", p0)] == evOut(ival(stdErr), fmt_sprintf("Error: %s\n", seq(toIface("string", err_msg(result))))) &&
@@ -354,6 +355,11 @@ package cli
 //@   ensures descend-init-ok: h < 0 && callOK("Parse", p0) && k < len(args) ==> callOK("doInit", callEnd("Parse", p0))
 //@   ensures help-descends: h >= 0 && h >= k ==> len(trace) > p0 &&
 //@       trace[p0] == evMark("doInit", firstSubFrom(c, args[k], 0, old(fieldHeap(c.commands)), old(fieldHeap(c.aliases)))) && callOK("doInit", p0)
+//@   ensures descent-gets-the-rest: h < 0 && callOK("Parse", p0) && k < len(args) ==> callEnd("doInit", callEnd("Parse", p0)) < len(trace) &&
+//@       trace[callEnd("doInit", callEnd("Parse", p0))] ==
+//@           evMark("parse", firstSubFrom(c, args[k], 0, old(fieldHeap(c.commands)), old(fieldHeap(c.aliases))), argsId(args[k+1:]))
+//@   ensures help-descent-gets-the-rest: h >= 0 && h >= k ==> callEnd("doInit", p0) < len(trace) &&
+//@       trace[callEnd("doInit", p0)] == evMark("parse", firstSubFrom(c, args[k], 0, old(fieldHeap(c.commands)), old(fieldHeap(c.aliases))), argsId(args[k+1:]))
 //@   ensures no-illegal-input-tail: h < 0 && callOK("Parse", p0) && k < len(args) ==> !isMark(trace[len(trace)-1], "onError") || len(trace) > callEnd("Parse", p0) + 1
 //@   ensures no-action-no-run: h < 0 && callOK("Parse", p0) && k == len(args) && old(c.Action) == nil ==> result == nil && noRun(old(trace), trace)
 //@   ensures first-run-is-the-entry: forall i int :: {trace[i]} p0 <= i && i < len(trace) && isMark(trace[i], "Run") && noRunIn(trace, p0, i) ==>
@@ -403,6 +409,7 @@ package cli
 //@       (len(names) > 0 ==> cli.version.option == cli.Cmd.options[old(len(cli.Cmd.options))])
 
 //@ func (*Cli).parse
+//@   logged
 //@   requires recv: cli != nil && cli.Cmd != nil && cli.Cmd.fsm != nil && entry != nil
 //@   requires version-wf: cli.version != nil ==> cli.version.option != nil
 //@   requires wf: allCmdWF(fieldHeap(cli.Cmd.options), fieldHeap(cli.Cmd.args), fieldHeap(cli.Cmd.commands), fieldHeap(cli.Cmd.optionsIdx), fieldHeap(cli.Cmd.argsIdx))
@@ -415,7 +422,9 @@ package cli
 //@   let vreq = cli.version != nil && len(args) > 0 && (exists j int :: 0 <= j && j < len(cli.version.option.Names) && cli.version.option.Names[j] == args[0])
 //@   ensures version-short-circuit: vreq ==> result == nil && noFlow(old(trace), trace) &&
 //@       trace[len(old(trace))] == evOut(ival(stdErr), fmt_sprintln(seq(toIface("string", cli.version.version))))
-//@   ensures otherwise-parse: !vreq && helpFrom(args, 0) < 0 ==> trace[len(old(trace))] == evMark("Parse", old(cli.Cmd.fsm))
+//@   ensures hands-over-the-arguments: !vreq ==> len(trace) > len(old(trace)) && trace[len(old(trace))] == evMark("parse", cli.Cmd, argsId(args))
+//@   ensures otherwise-parse: !vreq && helpFrom(args, 0) < 0 ==> trace[len(old(trace)) + 1] ==
+//@       evMark("Parse", old(cli.Cmd.fsm), argsId(args[:old(splitFrom(cli.Cmd, args, 0, fieldHeap(cli.Cmd.commands), fieldHeap(cli.Cmd.aliases)))]))
 
 //@ func (*Cli).Run
 //@   requires recv: cli != nil && cli.Cmd != nil && len(args) >= 1
@@ -427,6 +436,8 @@ package cli
 //@   maypanic
 //@   mayexit
 //@   ensures initialised-first: trace[len(old(trace))] == evMark("doInit", cli.Cmd)
+//@   ensures hands-over-the-arguments: callEnd("doInit", len(old(trace))) < len(trace) &&
+//@       trace[callEnd("doInit", len(old(trace)))] == evMark("parse", cli, argsId(args[1:]))
 //@   panics spec-error-before-any-flow: !callOK("doInit", len(old(trace))) ==> noFlow(old(trace), trace)
 
 // --- declaration wrappers (C06: the declared default is stored first; C15: the SetByUser pointer is carried unchanged) -------
